@@ -34,6 +34,13 @@ CLAIMED = {
             "a rotation/swap/reversal family beyond; chunked completion for imap_unordered), for 2-4 sensors (5 thorough), 1-2 layers, LGS/NGS "
             "mixes; rebuilding on one object with the thread count toggled (programs of up to 3 builds) returns the same terms",
             "multiprocessing.Pool assumed to meet its documented ordering contract; replay uses a controlled pool executing the witness schedule and the real Pool."),
+    "C04": ("3 C04", "for both screen variants with pixel_scale, r0, L0, screen contents and innovation symbolic: the covariance blocks equal "
+            "c(true pixel separation) for exactly the stencil points add_row reads and the new row at row -1 (sizes incl. requested sizes that are "
+            "not 2^n+1, up to internal 9 quick / 17 thorough); A Cov_zz = Cov_xz; A Cov_zz A^T + B B^T = Cov_xx through the SVD cut-point lemma chain "
+            "(stencils up to 7 points quick / 8 thorough, direct cross-check up to 6); add_row() returns A Z + B b (Fried: relative to the reference "
+            "pixel) with b the generator's next nx draws; Fried: adding a constant shifts the row by it; the same for a second instance built after "
+            "one with another r0. NOT claimed: stationarity as such (standard consequence for Gaussian vectors), Cholesky failure, float32 cast",
+            "phase_covariance is a cut-point; Cholesky inverse = adjugate*dinv; SVD by its factorisation contract."),
     "C09": ("4 C09", "ft/ift/ft2/ift2 and the real variants, as exported by the module and by the package, are inverse "
             "pairs, linear, satisfy Parseval, equal the centred DFT (origin at the centre sample) and obey the shift "
             "theorem for every complex input and every delta>0 at each listed size (1-D N<=5 quick / <=8 thorough, "
